@@ -2,7 +2,7 @@ import GdcVerif.Model.ParseCore
 /-
   Marker layer of the JPEG-family decoders (C08/C09), following /repo HEAD (after the fix commits
   1cb8f42 Build, b3192bf baseline selectors, 8718df8 SOS-before-SOF, f4e8601 SV1 selector,
-  879b6e2 lossless table ids).
+  879b6e2 lossless table ids, FIXME-SOF second frame header rejected by baseline and SV1).
 
   Hand-written, code-shaped, executable models of
     /repo/jpeg/standard/reader.go        Reader.ReadMarker / ReadSegment
@@ -225,23 +225,29 @@ def sv1Comps (w h : Nat) : Nat → Bytes → List (Nat × Nat) → List Nat → 
     else sv1Comps w h n rest (acc ++ [(id, 0)]) al
   | _ + 1, _, _, al => (none, al)
 
-/-- `Decoder.parseSOF3` on the segment payload: (new decoder state or error, allocations) -/
-def sv1SOF3 (st : Sv1) (data : Bytes) : Option Sv1 × List Nat :=
-  if data.length < 6 then (none, [])
+/-- `Decoder.parseSOF3` on the segment payload: (accepted?, decoder state after the call, allocations).
+    The fields are assigned in the order of the Go code, so a frame header that is rejected after
+    its extent was read leaves width/height set (the decode stops with that error).  A second frame
+    header is rejected (commit FIXME-SOF): it would re-allocate every component plane. -/
+def sv1SOF3 (st : Sv1) (data : Bytes) : (Bool × Sv1) × List Nat :=
+  if data.length < 6 then ((false, st), [])
+  else if st.comps.length > 0 then ((false, st), [])
   else
     let p := data.getD 0 0
-    if p < 2 ∨ p > 16 then (none, [])
+    let st1 := { st with precision := p }
+    if p < 2 ∨ p > 16 then ((false, st1), [])
     else
       let h := data.getD 1 0 * 256 + data.getD 2 0
       let w := data.getD 3 0 * 256 + data.getD 4 0
       let nc := data.getD 5 0
-      if w = 0 ∨ h = 0 then (none, [])
-      else if nc ≠ 1 ∧ nc ≠ 3 then (none, [])
-      else if data.length < 6 + nc * 3 then (none, [])
+      let st2 := { st1 with width := w, height := h }
+      if w = 0 ∨ h = 0 then ((false, st2), [])
+      else if nc ≠ 1 ∧ nc ≠ 3 then ((false, st2), [])
+      else if data.length < 6 + nc * 3 then ((false, st2), [])
       else
         match sv1Comps w h nc (data.drop 6) [] [8 * nc] with
-        | (none, al) => (none, al)
-        | (some cs, al) => (some { st with width := w, height := h, precision := p, comps := cs }, al)
+        | (none, al) => ((false, st2), al)
+        | (some cs, al) => ((true, { st2 with comps := cs }), al)
 
 /-- selector loop of parseSOS: the high nibble of the Td/Ta byte is the DC table selector and is
     checked against `len(d.dcTables)` = 4 (commit f4e8601) -/
@@ -285,8 +291,8 @@ def sv1Step (st : Sv1) (bs : Bytes) : Step Sv1 :=
     if m = 0xFFC3 then
       segTurn st rest fail fun pl _ =>
         match sv1SOF3 st pl with
-        | (none, al) => .stop { st with allocs := st.allocs ++ [pl.length] ++ al } .err
-        | (some st', al) => .cont { st' with allocs := st.allocs ++ [pl.length] ++ al }
+        | ((false, st'), al) => .stop { st' with allocs := st.allocs ++ [pl.length] ++ al } .err
+        | ((true, st'), al) => .cont { st' with allocs := st.allocs ++ [pl.length] ++ al }
     else if m = 0xFFC4 then
       segTurn st rest fail fun pl _ =>
         -- `Values` of every table is cut from the payload: at most the payload length in total
@@ -491,6 +497,7 @@ def blCompAllocs (w h maxH maxV : Nat) : List BlComp → Except Res (List Nat)
 /-- `Decoder.parseSOF` -/
 def blSOF (st : Bl) (data : Bytes) : Except Res (Bl × List Nat) :=
   if data.length < 6 then .error .err
+  else if st.comps.length > 0 then .error .err     -- commit FIXME-SOF: a second frame header is rejected
   else if data.getD 0 0 ≠ 8 then .error .err
   else
     let h := data.getD 1 0 * 256 + data.getD 2 0
